@@ -86,7 +86,7 @@ class Timeout(State):
             except KeyError:
                 raise AttributeError("Timeout state requires 'on_timeout' when timeout is set.")  # from KeyError
         else:
-            self._on_timeout = kwargs.pop('on_timeout', [])
+            self.on_timeout = kwargs.pop('on_timeout', [])
         self.runner = {}
         super(Timeout, self).__init__(*args, **kwargs)
 
@@ -121,8 +121,8 @@ class Timeout(State):
 
     @on_timeout.setter
     def on_timeout(self, value):
-        """Listifies passed values and assigns them to on_timeout."""
-        self._on_timeout = listify(value)
+        """Listifies passed values and assigns them (as a list of its own) to on_timeout."""
+        self._on_timeout = list(listify(value))
 
 
 class Volatile(State):
